@@ -111,14 +111,14 @@ static void do_op(int me, struct op *op)
 			} else {
 				w = mode == M_LOCKED ? cds_wfs_pop_blocking(&ws) : __cds_wfs_pop_blocking(&ws);
 			}
-			n = w ? caa_container_of(w, struct snode, u.w) : NULL;
+			n = w ? caa_container_of(RET_NODE(w, "cds_wfs_pop"), struct snode, u.w) : NULL;
 		} else if (variant == V_LFS) {
 			struct cds_lfs_node *l;
 			l = mode == M_LOCKED ? cds_lfs_pop_blocking(&ls) : __cds_lfs_pop(&ls);
-			n = l ? caa_container_of(l, struct snode, u.l) : NULL;
+			n = l ? caa_container_of(RET_NODE(l, "cds_lfs_pop"), struct snode, u.l) : NULL;
 		} else {
 			struct cds_lfs_node_rcu *r = cds_lfs_pop_rcu(&rs);
-			n = r ? caa_container_of(r, struct snode, u.r) : NULL;
+			n = r ? caa_container_of(RET_NODE(r, "cds_lfs_pop_rcu"), struct snode, u.r) : NULL;
 		}
 		if (wouldblock) {
 			wgl_cancel(&H, i);
@@ -157,7 +157,7 @@ static void do_op(int me, struct op *op)
 					int spins = 0;
 					if (H.ops[i].nlist >= WGL_MAXLIST)
 						usim_fail("stack-iteration", "iteration over pop_all result does not terminate");
-					n = caa_container_of(it, struct snode, u.w);
+					n = caa_container_of(RET_NODE(it, "iteration over the cds_wfs_pop_all result (first/next)"), struct snode, u.w);
 					wgl_list_add(&H, i, n->id);
 					got[ngot++] = n;
 					while ((tmp = cds_wfs_next_nonblocking(it)) == CDS_WFS_WOULDBLOCK) {
@@ -173,7 +173,7 @@ static void do_op(int me, struct op *op)
 			cds_wfs_for_each_blocking_safe(h, it, tmp) {
 				if (H.ops[i].nlist >= WGL_MAXLIST)
 					usim_fail("stack-iteration", "iteration over pop_all result does not terminate");
-				n = caa_container_of(it, struct snode, u.w);
+				n = caa_container_of(RET_NODE(it, "iteration over the cds_wfs_pop_all result (first/next)"), struct snode, u.w);
 				wgl_list_add(&H, i, n->id);
 				got[ngot++] = n;
 			}
@@ -186,7 +186,7 @@ static void do_op(int me, struct op *op)
 				cds_lfs_for_each_safe(h, it, tmp) {
 					if (H.ops[i].nlist >= WGL_MAXLIST)
 						usim_fail("stack-iteration", "iteration over pop_all result does not terminate");
-					n = caa_container_of(it, struct snode, u.l);
+					n = caa_container_of(RET_NODE(it, "iteration over the cds_lfs_pop_all result"), struct snode, u.l);
 					wgl_list_add(&H, i, n->id);
 					got[ngot++] = n;
 				}
@@ -349,7 +349,7 @@ void scen_stacks(void)
 		cds_wfs_for_each_blocking(h, it) {
 			if (H.ops[i].nlist >= WGL_MAXLIST)
 				usim_fail("stack-iteration", "final iteration does not terminate");
-			wgl_list_add(&H, i, caa_container_of(it, struct snode, u.w)->id);
+			wgl_list_add(&H, i, caa_container_of(RET_NODE(it, "iteration over the cds_wfs_pop_all result (first/next)"), struct snode, u.w)->id);
 		}
 	} else if (variant == V_LFS) {
 		struct cds_lfs_head *h = __cds_lfs_pop_all(&ls);
@@ -358,7 +358,7 @@ void scen_stacks(void)
 			cds_lfs_for_each(h, it) {
 				if (H.ops[i].nlist >= WGL_MAXLIST)
 					usim_fail("stack-iteration", "final iteration does not terminate");
-				wgl_list_add(&H, i, caa_container_of(it, struct snode, u.l)->id);
+				wgl_list_add(&H, i, caa_container_of(RET_NODE(it, "iteration over the cds_lfs_pop_all result"), struct snode, u.l)->id);
 			}
 		}
 	} else {
@@ -367,7 +367,7 @@ void scen_stacks(void)
 		while ((r = cds_lfs_pop_rcu(&rs)) != NULL) {
 			if (H.ops[i].nlist >= WGL_MAXLIST)
 				usim_fail("stack-iteration", "final drain does not terminate");
-			wgl_list_add(&H, i, caa_container_of(r, struct snode, u.r)->id);
+			wgl_list_add(&H, i, caa_container_of(RET_NODE(r, "cds_lfs_pop_rcu"), struct snode, u.r)->id);
 		}
 	}
 	wgl_end(&H, i, 0);
